@@ -267,9 +267,17 @@ pub fn step(st: St, ev: Ev, server_role: bool) -> (Want, St) {
                 (Want::NotApplicable, st)
             }
         }
-        Ev::SessReset | Ev::SessFinMidFrame => {
+        Ev::SessReset => {
             if st.session {
                 conn(&[H3_CLOSED_CRITICAL_STREAM, H3_FRAME_ERROR])
+            } else {
+                (Want::NotApplicable, st)
+            }
+        }
+        // RFC 9114 section 7.1: a frame truncated by the end of its stream is H3_FRAME_ERROR on every stream
+        Ev::SessFinMidFrame => {
+            if st.session {
+                conn(&[H3_FRAME_ERROR])
             } else {
                 (Want::NotApplicable, st)
             }
